@@ -290,6 +290,10 @@ def self_delimiting(name, encoding):
         return True
     if base == "unconnected_send":      # only the Unconnected Send service itself (0x52) carries lengths
         return encoding[:1] == b"\x52"
+    if base == "Connection_Manager.parser":
+        # a successful Forward Open reply (0xD4 / Large 0xDB, status 0, no extended status) ends with its
+        # application reply size (words), a reserved octet and exactly that many words
+        return len(encoding) >= 30 and encoding[0] in (0xD4, 0xDB) and encoding[2] == 0 and encoding[3] == 0
     return False
 
 
@@ -336,6 +340,18 @@ def wire_valid(name, b):
             return False
         return p + 2 + 2 * b[p] == len(b)    # route path size (words), pad, route path
     return None
+
+
+def forward_open_replies():
+    """successful Forward Open replies assembled from the wire format, with 0, 1, 2 and 5 words of
+    application reply data"""
+    out = []
+    for service in (0xD4, 0xDB):
+        for words in (0, 1, 2, 5):
+            app = bytes(range(0x0A, 0x0A + 2 * words))
+            out.append(struct.pack("<BBBBIIHHIIIBB", service, 0, 0, 0, 0x11111111, 0x22222222, 0x3333, 0x4444,
+                                   0x55555555, 1000, 2000, words, 0) + app)
+    return out
 
 
 def cpf_encodings(rng):
@@ -444,6 +460,8 @@ def produced(rng):
                 out.append(("typed_data:" + tname, parser.typed_data.produce(dd(data=vs[:k]), tag_type=cls.tag_type)))
             except Exception:
                 pass
+    for b in forward_open_replies():
+        out.append(("Connection_Manager.parser", b))
     for b in cpf_encodings(rng):
         for name in ("CPF", "list_identity", "list_services", "list_interfaces", "legacy"):
             out.append((name, b))
